@@ -263,7 +263,7 @@ class Sym:
 
 def _freeze(v):
     if isinstance(v, dict):
-        return tuple(sorted((k, _freeze(x)) for k, x in v.items()))
+        return tuple((k, _freeze(x)) for k, x in v.items())
     if isinstance(v, list):
         return tuple(_freeze(x) for x in v)
     return v
@@ -284,6 +284,18 @@ def const_of(t):
     if t[0] == "named":
         return t[2]
     if t[0] == "cast" and t[3].startswith("IntToInt"):
+        return const_of(t[1])
+    if t[0] == "field":
+        base = const_of(t[1])
+        if isinstance(base, tuple):
+            d = dict(base) if all(isinstance(x, tuple) and len(x) == 2 for x in base) else None
+            if d and "fields" in d:
+                fs = list(d["fields"])
+                if t[2] < len(fs):
+                    return fs[t[2]][1]
+            if d and "tuple" in d and t[2] < len(d["tuple"]):
+                return d["tuple"][t[2]]
+    if t[0] in ("ref", "deref"):
         return const_of(t[1])
     return None
 
